@@ -257,12 +257,14 @@ def run_harness(h: Harness, *, tier: str, known_active: set[str], seed: int = 0)
     truncated = False
     preds: list = []
     shared: dict = {}
+    smt_samples: list = []
     while stack:
         if len(paths) >= h.max_paths:
             truncated = True
             break
         ch = stack.pop()
         eng = Engine(ch, timeout_ms=timeout_ms, path_no=len(paths), shared=shared)
+        eng.want_sample = len(smt_samples) < 1
         try:
             outcome, res = _engine.run_once(body, eng)
         except Exception as e:
@@ -284,6 +286,8 @@ def run_harness(h: Harness, *, tier: str, known_active: set[str], seed: int = 0)
                                         outcome=outcome, obligations=eng.obligations, n_trace=len(eng.trace),
                                         model=model, predicted=None))
         preds.append(pred)
+        if eng.sample is not None:
+            smt_samples.append(eng.sample)
         solver_s += eng.solver_s
         assumptions |= eng.assumptions
         stubs |= eng.stubs_used
@@ -349,7 +353,7 @@ def run_harness(h: Harness, *, tier: str, known_active: set[str], seed: int = 0)
     for mm in mismatches:
         problems.append('cross-check: ' + mm)
 
-    samples = []
+    samples = list(smt_samples)
     for o in obs:
         if o.status == 'proved' and not o.canary and len(samples) < 2:
             samples.append(dict(obligation=o.name, path=o.path, status=o.status, backend=o.backend))
